@@ -19,7 +19,7 @@ def _variants(model, tier):
     # C02 is about the value clauses: keep every route-producing configuration, and give the main optimisation routes extra weight
     if model == "kFlowDecomp":
         V += [dict(tag="greedy off+ignore1", opts={"optimize_with_greedy": False}, nign=1),
-              dict(tag="weights superset+ignore1", superset=True, nign=1),
+              dict(tag="weights superset+ignore1", superset=True, nign=1), dict(tag="weights superset (greedy on)", superset=True),
               dict(tag="greedy off+constraint", opts={"optimize_with_greedy": False}, cons=1)]
     if model == "MinFlowDecomp":
         V += [dict(tag="guessed weights+ignore1", opts={"optimize_with_greedy": False, "optimize_with_guessed_weights": True}, nign=1),
@@ -46,14 +46,15 @@ def cases(tier):
                 seen.add(var["tag"])
                 salt = ti + vi
                 mix = (ti * 2654435761 + vi * 40503 + mi * 977) >> 7
-                wts = (("int", "float")[mix % 2],) if q else ("int", "float")
-                ks = (None,) if model.startswith("Min") else U.pick_k(G, var, names, kind == "cyc", mix >> 3, tier)
-                for wt in wts:
-                    for k in ks:
-                        for rep in range(1 if q else 2):
-                            c = U.make_case(model, G, names, var, k, wt, salt + rep, fscale=FSCALES[(mix >> 5) % 3] if wt == "float" else 1, count=4)
-                            if c is not None:
-                                yield c
+                combos = U.wk_combos(model, G, var, names, kind == "cyc", mix, "thorough")
+                if q and combos[0][1] is not None:       # both weight types at the cover number w, plus one other (type, k) pair
+                    w = max(k for wt_, k in combos if wt_ == "float")
+                    combos = sorted(set([("int", w), ("float", w), combos[(mix >> 9) % len(combos)]]), key=lambda x: (x[1], x[0]))
+                for wt, k in combos:
+                    for rep in range(2 if q else 3):
+                        c = U.make_case(model, G, names, var, k, wt, salt + rep, fscale=FSCALES[((mix >> 5) + rep) % 3] if wt == "float" else 1, count=4)
+                        if c is not None:
+                            yield c
     # one-node routes of node-weighted input
     for names in (graphs.NAMES1, graphs.NAMES2):
         a, b, c3 = names[0], names[1], names[2]
